@@ -937,12 +937,17 @@ def ops2(m, run, fname, helper, sign):
             for s_ in sizes:
                 total *= s_
             obj._a['_control_points'] = pts(total, 3, labelled=True)
+            if pdim == 2:
+                # the 2-D view holds the very point lists of the flat array (the invariant set_ctrlpts establishes)
+                obj._a['_control_points2D'] = [[obj._a['_control_points'][v_ + sizes[1] * u_] for v_ in range(sizes[1])] for u_ in range(sizes[0])]
             setc = []
 
             def set_ctrlpts(sk, node, cp, *sz, _o=obj, **k):
                 setc.append((cp, tuple(sz)))
                 _o._a['_control_points'] = cp
                 _o._a['_control_points_size'] = list(sz) if sz else [len(cp)]
+                if len(sz) == 2 and len(cp) == sz[0] * sz[1]:
+                    _o._a['_control_points2D'] = [[cp[v_ + sz[1] * u_] for v_ in range(sz[1])] for u_ in range(sz[0])]
             obj._a['set_ctrlpts'] = Py(set_ctrlpts, 'set_ctrlpts')
             ab = dict(STD_ABSTRACTED)
 
@@ -3977,3 +3982,66 @@ def sp3s(m, run):
         run.ob('SP3.split-exact', '%s :: %d (parameter, rational) cases on a %d x %d net of degrees %s' % (fi.key, n, su, sv, degs), not bad,
                'pieces are the two halves, along the split direction, of the fully refined net' if not bad else
                'parameter %s, rational %s: %s   [%d of %d cases]' % (bad[0][0] + (bad[0][1], len(bad), n)), 'geomdl/operations.py:%d in %s' % (fi.node.lineno, fi.key))
+
+
+# ====================================================================================== coordinates are stored as floats
+def kd5(m, run, rule='KD5.coordinates-stored-as-floats'):
+    """KD5 / GV2: set_ctrlpts of the shape classes (B-spline and rational) interpreted on an abstract shape with integer-valued input
+    coordinates and a non-square net: every stored coordinate is a float and every stored point a list of its own (the per-row helpers
+    A5.1 / A5.4 / A5.8 tell a row of points from a row of rows by `isinstance(x[0][0], float)`); the 2-D view of a surface holds, at
+    [u][v], the very point list stored at v + size_v * u of the flat array; a rational shape accepts homogeneous points of the lowest
+    admissible dimension (planar (x w, y w, w) for curves and surfaces)"""
+    for mod in ('BSpline', 'NURBS'):
+        for cname, pdim, degs, sizes in (('Curve', 1, (2,), (4,)), ('Surface', 2, (2, 1), (3, 2)), ('Volume', 3, (1, 1, 1), (2, 3, 2))):
+            if (mod, cname) not in m.classes:
+                continue
+            fi = m.lookup((mod, cname), 'set_ctrlpts', 'methods')
+            if fi is None:
+                raise AnalysisError('%s.%s.set_ctrlpts not found' % (mod, cname))
+            total = 1
+            for s_ in sizes:
+                total *= s_
+            hd = 3 if mod == 'BSpline' else (4 if pdim == 3 else 3)
+            given = [[i + 1, 2 * i, -i, 2][:hd] if mod == 'BSpline' or hd == 4 else [i + 1, 2 * i, 2] for i in range(total)]
+            obj = abstract_shape(cname, pdim, degs, sizes, True, [])
+            obj.__dict__['_cls'] = (mod, cname)
+            obj._a.update(_control_points=[], _control_points_size=[0] * pdim, _dimension=0, _rational=(mod == 'NURBS'), _cache={'ctrlpts': [], 'weights': []})
+            sk = SK(m, dict(STD_ABSTRACTED))
+            key = '%s.%s.set_ctrlpts' % (mod, cname)
+            why = None
+            try:
+                sk.call(fi, [obj, given] + (list(sizes) if pdim > 1 else []), {})
+                st = obj._a['_control_points']
+                if not isinstance(st, (list, tuple)) or len(st) != total:
+                    why = 'stores %r points for %d given' % (len(st) if isinstance(st, (list, tuple)) else st, total)
+                else:
+                    for i, p_ in enumerate(st):
+                        if not isinstance(p_, list) or any(p_ is g for g in given):
+                            why = 'stored point %d is the caller\'s own list' % i
+                            break
+                        bad = [c for c in p_ if not isinstance(c, float)]
+                        if bad or len(p_) != hd:
+                            why = ('stored point %d keeps the integer coordinate %r as given: the knot helpers dispatch on isinstance(point[0], float), so inserting, refining or removing '
+                                   'a knot of this shape takes the branch for rows of rows and fails' % (i, bad[0])) if bad else 'stored point %d has %d coordinates, %d were given' % (i, len(p_), hd)
+                            break
+                if why is None and pdim == 2:
+                    g2 = obj._a.get('_control_points2D')
+                    su, sv = sizes
+                    if not (isinstance(g2, (list, tuple)) and len(g2) == su and all(isinstance(r_, (list, tuple)) and len(r_) == sv for r_ in g2)):
+                        why = 'the 2-D view is not a %d x %d grid' % (su, sv)
+                    else:
+                        for u_ in range(su):
+                            for v_ in range(sv):
+                                if g2[u_][v_] is not st[v_ + sv * u_]:
+                                    idx = next((k for k, p_ in enumerate(st) if p_ is g2[u_][v_]), None)
+                                    why = 'the 2-D view holds at [%d][%d] %s; the flat array stores that point at v + size_v * u = %d' % (
+                                        u_, v_, 'the point stored at flat index %d' % idx if idx is not None else 'a list that is not a point of the flat array', v_ + sv * u_)
+                                    break
+                            if why:
+                                break
+            except Violation as v:
+                why = ('%s %s' % (v.msg, v.where())) + (' (a planar rational shape has homogeneous points (x w, y w, w))' if mod == 'NURBS' and v.rule == 'RAISE' else '')
+            except Unsupported as ex:
+                raise AnalysisError('%s: interpreter met an unsupported construct: %s' % (key, ex))
+            run.ob(rule, key, why is None, 'floats in fresh lists%s' % ('; 2-D view [u][v] is flat[v + size_v * u]' if pdim == 2 else '') if why is None else why,
+                   'geomdl/%s.py:%d in %s' % (fi.mod, fi.node.lineno, fi.key))
